@@ -333,12 +333,15 @@ theorem decEntriesW_enc (f : Fmt) (ws : List Nat) (hs : ws.sum < 2 ^ 16) (P : Na
   decList_enc (encEntryW f ws P) (decEntryW f ws P) (WFEntryW ws wf)
     (fun e r h => decEntryW_enc f ws hs P wf hP e r h) es hes hlen rest
 
-theorem optCdc_law {β : Type} (c : Cdc β) (wf : β → Prop) (h : c.Law wf) :
-    (optCdc c).Law (fun o => ∀ x, o = some x → wf x) := by
+theorem optTag_one (f : Fmt) : optTag f 1 = some true := by simp [optTag]
+theorem optTag_zero (f : Fmt) : optTag f 0 = some false := by cases f <;> simp [optTag]
+
+theorem optCdc_law {β : Type} (f : Fmt) (c : Cdc β) (wf : β → Prop) (h : c.Law wf) :
+    (optCdc f c).Law (fun o => ∀ x, o = some x → wf x) := by
   intro o rest ho
   cases o with
-  | none => simp [optCdc]
-  | some x => simp [optCdc, h x rest (ho x rfl)]
+  | none => simp [optCdc, optTag_zero]
+  | some x => simp [optCdc, optTag_one, h x rest (ho x rfl)]
 
 /-- what a payload must be for a field of the given kind -/
 def WFPV (isOpt : Bool) : PV → Prop
@@ -346,7 +349,7 @@ def WFPV (isOpt : Bool) : PV → Prop
   | .o none => isOpt = true
   | .o (some v) => isOpt = true ∧ v < 2 ^ 32
 
-theorem pvCdc_law (isOpt : Bool) : (pvCdc isOpt).Law (WFPV isOpt) := by
+theorem pvCdc_law (f : Fmt) (isOpt : Bool) : (pvCdc f isOpt).Law (WFPV isOpt) := by
   intro x rest h
   cases x with
   | u v =>
@@ -355,11 +358,11 @@ theorem pvCdc_law (isOpt : Bool) : (pvCdc isOpt).Law (WFPV isOpt) := by
     simp [pvCdc, decElem_enc v rest h2]
   | o v =>
     cases v with
-    | none => simp only [WFPV] at h; subst h; simp [pvCdc]
+    | none => simp only [WFPV] at h; subst h; simp [pvCdc, optTag_zero]
     | some v =>
       obtain ⟨h1, h2⟩ := h
       subst h1
-      simp [pvCdc, decElem_enc v rest h2]
+      simp [pvCdc, optTag_one, decElem_enc v rest h2]
 
 /-! recursive maps of flat values as fields -/
 
@@ -368,7 +371,7 @@ def WFVals : List Bool → List PV → Prop
   | o :: t, v :: vs => WFPV o v ∧ WFVals t vs
   | _, _ => False
 
-theorem valsCdc_law (opts : List Bool) : (valsCdc opts).Law (WFVals opts) := by
+theorem valsCdc_law (f : Fmt) (opts : List Bool) : (valsCdc f opts).Law (WFVals opts) := by
   intro vs rest h
   induction opts generalizing vs with
   | nil =>
@@ -380,10 +383,10 @@ theorem valsCdc_law (opts : List Bool) : (valsCdc opts).Law (WFVals opts) := by
     | nil => simp [WFVals] at h
     | cons v vs =>
       obtain ⟨h1, h2⟩ := h
-      have e1 : (pvCdc false).enc v = (pvCdc o).enc v := rfl
+      have e1 : (pvCdc f false).enc v = (pvCdc f o).enc v := rfl
       have := ih vs h2
       simp only [valsCdc] at this ⊢
-      simp only [List.map_cons, List.flatten_cons, List.append_assoc, decVals, e1, pvCdc_law o v _ h1, this, Option.map_some]
+      simp only [List.map_cons, List.flatten_cons, List.append_assoc, decVals, e1, pvCdc_law f o v _ h1, this, Option.map_some]
 
 def WFLeafEntries (L : LeafTy) (es : List (Nat × PV)) : Prop :=
   (∀ e ∈ es, WFEntry L.skips (fun j => WFPV (L.opts.getD j false)) e) ∧ es.length < 2 ^ 64
@@ -391,7 +394,7 @@ def WFLeafEntries (L : LeafTy) (es : List (Nat × PV)) : Prop :=
 theorem leafEntriesCdc_law (f : Fmt) (L : LeafTy) (hL : L.skips.length < 2 ^ 16) :
     (leafEntriesCdc f L).Law (WFLeafEntries L) := by
   intro es rest h
-  exact decEntries_enc f L.skips hL _ _ (fun j => pvCdc_law (L.opts.getD j false)) es h.1 h.2 rest
+  exact decEntries_enc f L.skips hL _ _ (fun j => pvCdc_law f (L.opts.getD j false)) es h.1 h.2 rest
 
 /-- well-formed payload for alternative `alt` of a field of the given kind -/
 def WFPL : FKind → Nat → PL → Prop
@@ -421,7 +424,7 @@ theorem plCdc_law (f : Fmt) (hT : AllTabs f) (k : FKind) (alt : Nat) : (plCdc f 
   | flat o =>
     cases p <;> try (simp [WFPL] at h; done)
     rename_i p
-    simp only [plCdc, pvCdc_law o p rest h, Option.map_some]
+    simp only [plCdc, pvCdc_law f o p rest h, Option.map_some]
   | nested L =>
     cases p <;> try (simp [WFPL] at h; done)
     rename_i es
@@ -433,11 +436,11 @@ theorem plCdc_law (f : Fmt) (hT : AllTabs f) (k : FKind) (alt : Nat) : (plCdc f 
       cases p <;> try (simp [WFPL] at h; done)
       rename_i o
       obtain ⟨hL, ho⟩ := h
-      simp only [plCdc, optCdc_law _ _ (leafEntriesCdc_law f L hL) o rest ho, Option.map_some]
+      simp only [plCdc, optCdc_law f _ _ (leafEntriesCdc_law f L hL) o rest ho, Option.map_some]
     | succ a =>
       cases p <;> try (simp [WFPL] at h; done)
       rename_i vs
-      simp only [plCdc, valsCdc_law L.opts vs rest h, Option.map_some]
+      simp only [plCdc, valsCdc_law f L.opts vs rest h, Option.map_some]
   | ord =>
     cases p <;> try (simp [WFPL] at h; done)
     rename_i s
@@ -454,6 +457,6 @@ theorem plCdc_law (f : Fmt) (hT : AllTabs f) (k : FKind) (alt : Nat) : (plCdc f 
     cases p <;> try (simp [WFPL] at h; done)
     rename_i d
     obtain ⟨hL, hd⟩ := h
-    simp only [plCdc, decRDiff_enc f hT.rchange hT.rdiff _ _ _ _ (valsCdc_law L.opts) (leafEntriesCdc_law f L hL) d rest hd, Option.map_some]
+    simp only [plCdc, decRDiff_enc f hT.rchange hT.rdiff _ _ _ _ (valsCdc_law f L.opts) (leafEntriesCdc_law f L hL) d rest hd, Option.map_some]
 
 end Codec
